@@ -184,7 +184,7 @@ func (d SuDate) AddMs(ms int) SuDate {
 		d.time += uint32(ms) // fast path
 		return d
 	}
-	return orig.Plus(0, 0, 0, 0, 0, 0, 1) // slower fallback
+	return orig.Plus(0, 0, 0, 0, 0, 0, ms) // slower fallback
 }
 
 func (d SuDate) WithoutMs() SuDate {
